@@ -5,7 +5,7 @@
    abstraction as Model/WL.v.  The moves, kappa, the nearest-centre search np.argmin(abs(bincts - k)), np.exp and the
    two uniform draws are ORACLES.  For EVERY state and every oracle outcome one iteration of the translated loop body
    leaves exactly the state Model.WL.wl_step computes. *)
-From Coq Require Import List String Ascii ZArith QArith Qreduction Bool Arith Lia.
+From Coq Require Import List String Ascii ZArith QArith Qabs Qround Qreduction Bool Arith Lia.
 From LC Require Import Core.Residue Core.Lists Core.MiniPy Model.WL Gen.GMiniPy.
 Import ListNotations.
 Local Open Scope Z_scope.
@@ -796,3 +796,148 @@ Example step_runs :
   | _ => false
   end = true.
 Proof. vm_compute. reflexivity. Qed.
+
+(* ---------- the bin geometry of __init__ (NORMAL run) ---------- *)
+Section Geometry.
+Variable nb : nat.
+Variables bmin bmax : Q.
+
+Definition argmin_q (cts : list Q) (t : Q) : nat :=
+  fold_left (fun best i => if Qle_bool (Qabs (nth best cts 0%Q - t)) (Qabs (nth i cts 0%Q - t)) then best else i) (seq 1 (List.length cts - 1)) 0%nat.
+Definition centres_of (na : nat) : list Q := map (fun i => Z.of_nat (2 * i + 1) # Pos.of_nat (2 * na)) (seq 0 na).
+Fixpoint qs_of (l : list value) : option (list Q) :=
+  match l with [] => Some [] | VQ q :: l' => option_map (cons q) (qs_of l') | _ => None end.
+
+Definition geo_prim (name : string) (args : list value) : value :=
+  if String.eqb name "qdiv" then
+    match args with
+    | [a; b] => match as_Q a, as_Q b with
+                | Some x, Some y => if Qeq_bool y 0 then VExc else VQ (Qred (x / y))
+                | _, _ => VErr
+                end
+    | _ => VErr
+    end
+  else if String.eqb name "round" then match args with [VQ x] => VInt (round_half_even x) | _ => VErr end
+  else if String.eqb name "getBinCenters" then match args with [VInt na] => VList (map VQ (centres_of (Z.to_nat na))) | _ => VErr end
+  else if String.eqb name "argmin_abs_diff" then
+    match args with [VList l; VQ t] => match qs_of l with Some cts => VN (argmin_q cts t) | None => VErr end | _ => VErr end
+  else VErr.
+
+Lemma qs_of_map l : qs_of (map VQ l) = Some l.
+Proof. induction l as [|q l IH]; [reflexivity|]. cbn [map qs_of]. now rewrite IH. Qed.
+
+Definition bw : Q := Qred (Qred (bmax - bmin) / inject_Z (Z.of_nat nb)).
+Definition na_code : Z := round_half_even (Qred (inject_Z 1 / bw)).
+Definition rmin_code : nat := argmin_q (centres_of (Z.to_nat na_code)) (Qred (bmin + Qred (bw / inject_Z 2))).
+
+(* the geometry block on EVERY requested range (rationals) and bin number: binWidth, round(1 / binWidth) to the even neighbour
+   at exact halves, the first centre nearest to binmin + binWidth / 2, and relevant_max = relevant_min + nbins - 1 *)
+Theorem geometry_tie r : (1 <= nb)%nat -> ~ (bmax - bmin == 0)%Q -> 0 <= na_code ->
+  lookup "binmin" r = VQ bmin -> lookup "binmax" r = VQ bmax -> lookup "self.nbins_target" r = VN nb ->
+  exists r', MiniPy.exec geo_prim 0 g_wl_geometry r = ONorm r' /\
+    lookup "self.nbins_actual" r' = VInt na_code /\ lookup "self.relevant_min" r' = VN rmin_code /\
+    lookup "self.relevant_max" r' = VInt (Z.of_nat rmin_code + Z.of_nat nb - 1) /\
+    lookup "self.binmin" r' = VQ bmin /\ lookup "self.binmax" r' = VQ bmax.
+Proof.
+  intros Hnb Hd Hna Hmin Hmax Hnt. unfold g_wl_geometry.
+  rewrite exec_seq, (exec_assign_ok _ _ _ (VQ bmin)) by (try reflexivity; rewrite eval_var; exact Hmin).
+  rewrite exec_seq, (exec_assign_ok _ _ _ (VQ bmax)) by (try reflexivity; rewrite eval_var; lk; exact Hmax).
+  set (r2 := set "self.binmax" (VQ bmax) (set "self.binmin" (VQ bmin) r)).
+  assert (Ed : MiniPy.eval geo_prim (ESub (EVar "self.binmax") (EVar "self.binmin")) r2 = VQ (Qred (bmax - bmin))).
+  { apply eval_sub_Q; rewrite eval_var; unfold r2; lk; reflexivity. }
+  rewrite exec_seq, (exec_assign_ok _ _ _ _ Ed eq_refl).
+  set (r3 := set "diff" (VQ (Qred (bmax - bmin))) r2).
+  assert (Ew : MiniPy.eval geo_prim (ECall "qdiv" [EVar "diff"; EVar "self.nbins_target"]) r3 = VQ bw).
+  { rewrite (eval_call2 _ _ _ _ (VQ (Qred (bmax - bmin))) (VN nb)); [| rewrite eval_var; unfold r3; lk; reflexivity | rewrite eval_var; unfold r3, r2; lk; exact Hnt | reflexivity | reflexivity].
+    unfold geo_prim. cbn [String.eqb Ascii.eqb Bool.eqb as_Q].
+    replace (Qeq_bool (inject_Z (Z.of_nat nb)) 0) with false; [reflexivity|]. symmetry. apply not_true_is_false. intros C. apply Qeq_bool_iff in C.
+    unfold Qeq, inject_Z in C. cbn in C. lia. }
+  rewrite exec_seq, (exec_assign_ok _ _ _ _ Ew eq_refl).
+  set (r4 := set "binWidth" (VQ bw) r3).
+  assert (Hbw : Qeq_bool bw 0 = false).
+  { apply not_true_is_false. intros C. apply Qeq_bool_iff in C. unfold bw in C. rewrite !Qred_correct in C. apply Hd.
+    assert (Hn : ~ (inject_Z (Z.of_nat nb) == 0)%Q) by (unfold Qeq, inject_Z; cbn; lia).
+    transitivity ((bmax - bmin) / inject_Z (Z.of_nat nb) * inject_Z (Z.of_nat nb))%Q; [field; exact Hn | rewrite C; ring]. }
+  assert (En : MiniPy.eval geo_prim (EToInt (ECall "round" [ECall "qdiv" [EConst (VInt 1); EVar "binWidth"]])) r4 = VInt na_code).
+  { apply eval_toint_int.
+    assert (Eq : MiniPy.eval geo_prim (ECall "qdiv" [EConst (VInt 1); EVar "binWidth"]) r4 = VQ (Qred (inject_Z 1 / bw))).
+    { rewrite (eval_call2 _ _ _ _ (VInt 1) (VQ bw) (eval_const _ _)); [| rewrite eval_var; unfold r4; lk; reflexivity | reflexivity | reflexivity].
+      unfold geo_prim. cbn [String.eqb Ascii.eqb Bool.eqb as_Q]. now rewrite Hbw. }
+    rewrite (eval_call1 _ _ _ _ Eq eq_refl). reflexivity. }
+  rewrite exec_seq, (exec_assign_ok _ _ _ _ En eq_refl).
+  set (r5 := set "self.nbins_actual" (VInt na_code) r4).
+  assert (Ec : MiniPy.eval geo_prim (ECall "getBinCenters" [EVar "self.nbins_actual"]) r5 = VList (map VQ (centres_of (Z.to_nat na_code)))).
+  { rewrite (eval_call1 _ _ _ (VInt na_code)); [reflexivity | rewrite eval_var; unfold r5; lk; reflexivity | reflexivity]. }
+  rewrite exec_seq, (exec_assign_ok _ _ _ _ Ec eq_refl).
+  set (r6 := set "bincts" _ r5).
+  assert (Et : MiniPy.eval geo_prim (EAdd (EVar "self.binmin") (ECall "qdiv" [EVar "binWidth"; EConst (VInt 2)])) r6 = VQ (Qred (bmin + Qred (bw / inject_Z 2)))).
+  { apply eval_add_Q; [rewrite eval_var; unfold r6, r5, r4, r3, r2; lk; reflexivity|].
+    rewrite (eval_call2 _ _ _ _ (VQ bw) (VInt 2)); [reflexivity | rewrite eval_var; unfold r6, r5, r4; lk; reflexivity | reflexivity | reflexivity | reflexivity]. }
+  assert (Er : MiniPy.eval geo_prim (ECall "argmin_abs_diff" [EVar "bincts"; EAdd (EVar "self.binmin") (ECall "qdiv" [EVar "binWidth"; EConst (VInt 2)])]) r6 = VN rmin_code).
+  { rewrite (eval_call2 _ _ _ _ (VList (map VQ (centres_of (Z.to_nat na_code)))) _ (eq_trans (eval_var _ _) (lookup_set_eq _ _ _)) Et eq_refl eq_refl).
+    unfold geo_prim. cbn [String.eqb Ascii.eqb Bool.eqb]. now rewrite qs_of_map. }
+  rewrite exec_seq, (exec_assign_ok _ _ _ _ Er eq_refl).
+  set (r7 := set "self.relevant_min" (VN rmin_code) r6).
+  assert (Em : MiniPy.eval geo_prim (ESub (EAdd (EVar "self.relevant_min") (EVar "self.nbins_target")) (EConst (VInt 1))) r7 = VInt (Z.of_nat rmin_code + Z.of_nat nb - 1)).
+  { apply eval_sub_int; [|reflexivity]. apply eval_add_int; rewrite eval_var; unfold r7, r6, r5, r4, r3, r2; lk; [reflexivity | exact Hnt]. }
+  rewrite (exec_assign_ok _ _ _ _ Em eq_refl).
+  eexists. split; [reflexivity|]. unfold r7, r6, r5, r4, r3, r2. lk. repeat split; reflexivity.
+Qed.
+
+(* ... and these are the model's: Model.WL.geom_of *)
+Lemma Qle_bool_compat a a' b b' : (a == a')%Q -> (b == b')%Q -> Qle_bool a b = Qle_bool a' b'.
+Proof. intros Ha Hb. apply Bool.eq_iff_eq_true. rewrite !Qle_bool_iff, Ha, Hb. reflexivity. Qed.
+Lemma Qeq_bool_compat a a' b b' : (a == a')%Q -> (b == b')%Q -> Qeq_bool a b = Qeq_bool a' b'.
+Proof. intros Ha Hb. apply Bool.eq_iff_eq_true. rewrite !Qeq_bool_iff, Ha, Hb. reflexivity. Qed.
+Lemma rhe_compat x y : (x == y)%Q -> round_half_even x = round_half_even y.
+Proof.
+  intros H. unfold round_half_even. rewrite (Qfloor_comp _ _ H).
+  assert (E : (x - inject_Z (Qfloor y) == y - inject_Z (Qfloor y))%Q) by (rewrite H; reflexivity).
+  rewrite (Qle_bool_compat _ _ _ _ E (Qeq_refl _)), (Qeq_bool_compat _ _ _ _ E (Qeq_refl _)). reflexivity.
+Qed.
+
+Lemma centres_nth na i : (i < na)%nat -> nth i (centres_of na) 0%Q = (Z.of_nat (2 * i + 1) # Pos.of_nat (2 * na)).
+Proof.
+  intros H. unfold centres_of.
+  assert (G : forall m a k (f : nat -> Q), (k < m)%nat -> nth k (map f (seq a m)) 0%Q = f (a + k)%nat).
+  { induction m as [|m IH]; intros a k f Hk; [lia|]. cbn [seq map]. destruct k as [|k]; cbn [nth]; [now rewrite Nat.add_0_r|].
+    rewrite IH by lia. f_equal. lia. }
+  rewrite G by exact H. reflexivity.
+Qed.
+
+Lemma argmin_is_rmin na (w t : Q) : (t == bmin + w / 2)%Q -> argmin_q (centres_of na) t = rmin_of na w bmin.
+Proof.
+  intros Ht. assert (Hlen : List.length (centres_of na) = na) by (unfold centres_of; now rewrite map_length, seq_length).
+  unfold argmin_q, rmin_of. rewrite Hlen.
+  assert (G : forall l b, (b < na)%nat -> (forall i, In i l -> (i < na)%nat) ->
+    fold_left (fun best i => if Qle_bool (Qabs (nth best (centres_of na) 0%Q - t)) (Qabs (nth i (centres_of na) 0%Q - t)) then best else i) l b =
+    fold_left (fun best i => if Qle_bool (Qabs ((Z.of_nat (2 * best + 1) # Pos.of_nat (2 * na)) - (bmin + w / 2))) (Qabs ((Z.of_nat (2 * i + 1) # Pos.of_nat (2 * na)) - (bmin + w / 2))) then best else i) l b).
+  { induction l as [|i l IH]; intros b Hb Hl; [reflexivity|]. cbn [fold_left].
+    assert (Hi : (i < na)%nat) by (apply Hl; now left).
+    rewrite (centres_nth na b Hb), (centres_nth na i Hi).
+    rewrite (Qle_bool_compat _ (Qabs ((Z.of_nat (2 * b + 1) # Pos.of_nat (2 * na)) - (bmin + w / 2))) _ (Qabs ((Z.of_nat (2 * i + 1) # Pos.of_nat (2 * na)) - (bmin + w / 2))))
+      by (rewrite Ht; reflexivity).
+    destruct (Qle_bool _ _); apply IH; try assumption; intros j Hj; apply Hl; now right. }
+  destruct na as [|na]; [reflexivity|]. apply G; [lia|]. intros i Hi. apply in_seq in Hi. lia.
+Qed.
+
+Theorem geometry_is_model : (1 <= nb)%nat -> ~ (bmax - bmin == 0)%Q -> (Z.to_nat na_code, rmin_code) = geom_of nb bmin bmax.
+Proof.
+  intros Hnb Hd. unfold geom_of. cbv zeta.
+  set (w := ((bmax - bmin) / inject_Z (Z.of_nat nb))%Q).
+  assert (Hn : ~ (inject_Z (Z.of_nat nb) == 0)%Q) by (unfold Qeq, inject_Z; cbn; lia).
+  assert (Hw : (bw == w)%Q) by (unfold bw, w; rewrite !Qred_correct; reflexivity).
+  assert (Hw0 : ~ (w == 0)%Q).
+  { intros C. apply Hd. transitivity (w * inject_Z (Z.of_nat nb))%Q; [unfold w; field; exact Hn | rewrite C; ring]. }
+  assert (Ena : na_code = round_half_even (1 / w)).
+  { unfold na_code. apply rhe_compat. rewrite Qred_correct, Hw. reflexivity. }
+  unfold rmin_code. rewrite Ena. f_equal. apply argmin_is_rmin. rewrite !Qred_correct, Hw. reflexivity.
+Qed.
+End Geometry.
+Print Assumptions geometry_tie.
+Print Assumptions geometry_is_model.
+
+Example geometry_runs : (* [0.1, 0.9] in 2 bins: 1 / 0.4 = 2.5 rounds to the even neighbour 2 *)
+  na_code 2 (1 # 10) (9 # 10) = 2 /\ rmin_code 2 (1 # 10) (9 # 10) = 0%nat /\ Model.WL.geom_of 2 (1 # 10) (9 # 10) = (2%nat, 0%nat) /\
+  na_code 3 (1 # 10) (8 # 10) = 4 /\ Model.WL.geom_of 3 (1 # 10) (8 # 10) = (4%nat, rmin_code 3 (1 # 10) (8 # 10)).
+Proof. repeat split; vm_compute; reflexivity. Qed.
